@@ -146,10 +146,19 @@ Print Assumptions C15_deleted_gone.
    cannot refuse afterwards — whatever error it returns, metadata and engine are untouched. *)
 Theorem C15_rename_rejected_no_effect : forall host s keys names s' er,
   Inv s -> Cons s -> is_Some (s_eng s !! host) -> length keys = length names ->
+  Forall (fun n => n <> "") names ->
   (forall k, k ∈ keys -> leaseholder k = host) ->
   rename_gateway host s keys names = (s', er) -> er <> EOk -> s' = s.
 Proof. exact rename_gateway_rejected. Qed.
 Print Assumptions C15_rename_rejected_no_effect.
+
+(* The non-empty-name hypothesis is needed: the engine refuses an empty name AFTER the metadata row
+   was renamed. Upstream nothing rejected it earlier when validation is off (finding F91, fixed by
+   f2d9cf3: rename now requires a name before writing anything). *)
+Theorem C15_rename_empty_name_upstream_refuted :
+  consistent_b (run false false w_s0 w_f91) = false /\ consistent_b (run true false w_s0 w_f91) = true.
+Proof. exact (conj f91_unfixed (proj1 f91_fixed)). Qed.
+Print Assumptions C15_rename_empty_name_upstream_refuted.
 
 (* The pinned upstream tree breaks (7) with one successful delete of a leased virtual channel
    (finding F9, fixed by a4733ea): the deleted key stays in use in the engine. On the current tree
